@@ -1136,7 +1136,7 @@ class C10(Prop):
     id = "C10"
     props_file = "Props/C10.v"
     # redundant tie (core.gen_tie): these decision functions, translated from the source on every run, equal the hand model for all inputs
-    gen_tie_theorems = ['GenTie_is_target_object']
+    gen_tie_theorems = ['GenTie_is_target_object', 'GenTie_filter_objects', 'GenTie_filter_object_results']
     gen_files = []
     design_ref = "DESIGN.md section 4, C10"
     technique = ("Rocq proof that the sequential model of _is_target_object (code order, early exits, per-label lookups, mean bounds, "
